@@ -18,11 +18,12 @@ func init() {
 		Covers:         "promql: Engine.execEvalStmt (evaluator literals), evaluator.rangeEval, evaluator.gatherVector, evaluator.rangeEvalAgg (step loop).",
 		NotCover:       "state that individual functions or aggregations keep across steps (EvalNodeHelper caches), float results, the storage iterators; the incremental range-vector window is decided under C28.R2.",
 		Run:            runC27,
-		MinObligations: 15,
+		MinObligations: 45,
 	})
 }
 
 func runC27(c *eng.Ctx) {
+	defer runC27Visit(c)
 	p := c.P
 	Q := "promql:"
 	stmt := func(text string) eng.Matcher {
